@@ -324,7 +324,12 @@ func ToDateTime(ctx *expr.Context, input system.Collection, args ...expr.Express
 	case system.String:
 		result, err := system.ParseDateTime(string(value))
 		if err != nil {
-			return system.Collection{}, nil
+			// a partial date without the 'T' suffix (2020, 2020-01, 2020-01-01) is a valid DateTime string
+			date, err := system.ParseDate(string(value))
+			if err != nil {
+				return system.Collection{}, nil
+			}
+			return system.Collection{date.ToDateTime()}, nil
 		}
 		return system.Collection{result}, nil
 	}
